@@ -82,7 +82,7 @@ REQUIRED_PROBES = {
     "C16": ["nary_pattern_evaluated", "axle_constructed"],
     "C17": ["last_handle_dropped"],
     "C15": ["set_rejected", "set_rejected_while_following", "set_time_after_clock_moved", "update_while_following", "adapter_get", "motion_profile_adapter_get"],
-    "C02": ["two_different_errors", "nary_leading_absent", "equivalence_checked", "noncommutative_payload_combined"],
+    "C02": ["two_different_errors", "nary_leading_absent", "equivalence_checked", "noncommutative_payload_combined", "read_while_inputs_borrowed"],
     "C08": ["both_sides_present", "one_sided", "axle_partial_presence", "diff_equal_all_present", "diff_waits_for_data",
             "teeth_ratio_observed"],
     "C09": ["reconnect_same_pair", "connect_steals_both", "connect_steals_one", "disconnect_unlinked", "link_op_refused_by_live_borrow"],
@@ -644,6 +644,9 @@ def check_c16(tier, seed):
                 jobs.append(("dangle-%d-%d-%d" % (sh, c, sd), "dangle", [sh, c, sd]))
     for sh in controls:
         jobs.append(("control-%d" % sh, "dangle", [sh, 0, seed]))
+    # ... and orderly teardown after link operations that were refused because a terminal was being read
+    for sh in ([2, 9] if tier == "quick" else list(range(11))):
+        jobs.append(("control-%d-refused" % sh, "dangle", [sh, 3, seed]))
     # clone / drop / to_dyn! histories of the owning and static Reference variants
     nref = 12 if tier == "quick" else 60
     for part in range(1 if tier == "quick" else 4):
@@ -696,9 +699,10 @@ def check_c16(tier, seed):
             shapes_run += 1
             sh = int(key.split("-")[1])
             if rc != 0:
-                sig = "C16|miri_ub|control:%s" % DANGLE_SHAPES[sh]
-                what = [l for l in out.splitlines() if "Undefined Behavior" in l or "panicked" in l]
-                dest = write_miri_replay(prop, "control-%d-seed%d" % (sh, seed), "dangle", [sh, 0, seed], sig, (what or ["failed"])[0])
+                refused = key.endswith("-refused")
+                sig = "C16|miri_ub|control%s:%s" % ("_after_refused_link_op" if refused else "", DANGLE_SHAPES[sh])
+                what = [l for l in out.splitlines() if "Undefined Behavior" in l or ("panicked" in l and "already" not in l)]
+                dest = write_miri_replay(prop, "%s-seed%d" % (key, seed), "dangle", [sh, 3 if refused else 0, seed], sig, (what or ["failed"])[0])
                 violations += 1
                 ub_reports += 1
                 lines.append("VIOLATION property=%s replay=%s" % (prop, dest))
